@@ -693,6 +693,16 @@ theorem adapted_strict_iff_written (s : List (List Bytes)) (n : Nat) (arg : Bool
     · cases h
     · cases h; simp
 
+/-- **options written for one listener stay on it.** A `servers <address> { … }` block gives its
+    trusted_proxies / strict / client_ip_headers to a server iff that server listens on the address; every
+    other server keeps none of them (no trust, default headers).  A block without address applies as is. -/
+theorem targeted_options_stay_on_their_listener (addr : Bytes) (listen : List Bytes) (a : Adapted) :
+    (listen.contains addr = false →
+      (optionsFor (some addr) listen a).srvRanges = none ∧ (optionsFor (some addr) listen a).strict = false ∧
+      (optionsFor (some addr) listen a).clientIPHeaders = none) ∧
+    (listen.contains addr = true → optionsFor (some addr) listen a = a) ∧ optionsFor none listen a = a := by
+  refine ⟨fun h => ?_, fun h => ?_, rfl⟩ <;> simp [optionsFor, h]
+
 /-- the `private_ranges` shortcut stands for exactly the documented private and loopback ranges
     (regenerated from internal/ranges.go) -/
 theorem private_ranges_matches_documented :
@@ -993,6 +1003,10 @@ example : (serveFcgi toyNet exCfg exUntrusted exHeaders .none).map (fun e => (e.
     some ([b!"fe80::1"], [b!"https"], [b!"example.com"]) := by decide
 example : (serveFcgi toyNet exCfg exUntrusted ((b!"X_Forwarded_Proto", b!"http") :: exHeaders) .none).map (fun e => e.xfp) =
     some [b!"https", b!"http"] := by decide
+-- targeted_options_stay_on_their_listener: a block for :8443 does not reach the server listening on :80
+example : (optionsFor (some b!":8443") [b!":80"] ⟨some [b!"10.0.0.0/8"], true, some [b!"X-Real-IP"], [], phClientIP⟩).srvRanges = none ∧
+    optionsFor (some b!":8443") [b!":8443"] ⟨some [b!"10.0.0.0/8"], true, none, [], phClientIP⟩ =
+      ⟨some [b!"10.0.0.0/8"], true, none, [], phClientIP⟩ := by decide
 -- elements_are_per_value
 example : elements [b!"a,b", b!"", b!"c"] = [b!"a", b!"b", b!"", b!"c"] := by decide
 -- trimSpace_never_runs_out_of_fuel: NBSP, EM SPACE and ASCII blanks around an address
